@@ -22,6 +22,7 @@ Inductive aev :=
 | APubClose (h : hid)               (* the publisher's Close() has returned *)
 | ASignal                          (* marker: close(closingInProgressCh) *)
 | ACancel                          (* marker: the user cancelled Run's context *)
+| ASubEnd (h : hid)                (* marker: handler h's subscription ended by itself (its loop ends, its own context with it) *)
 | AQuiescent.                      (* the driver saw everything at rest *)
 
 Definition mem (x : nat) (l : list nat) : bool := existsb (Nat.eqb x) l.
@@ -100,6 +101,8 @@ Definition mon_step (nh : nat) (haspub : hid -> bool) (s : mstate) (e : aev) : m
                    (m_nil s) (m_err s) (m_anyret s) true (m_early s) (m_runret s) (m_rundirty s) (m_susp s), [])
   | ACancel => (MS (m_taken s) (m_started s) (m_ended s) (m_settled s) (m_subclosed s) (m_pubclosed s)
                    (m_nil s) (m_err s) (m_anyret s) (m_signalled s) (m_early s || negb (m_signalled s)) (m_runret s) (m_rundirty s) (m_susp s), [])
+  | ASubEnd h => (MS (m_taken s) (m_started s) (m_ended s) (m_settled s) (m_subclosed s) (m_pubclosed s)
+                     (m_nil s) (m_err s) (m_anyret s) (m_signalled s) (m_early s || negb (m_signalled s)) (m_runret s) (m_rundirty s) (m_susp s), [])
   | AQuiescent =>
       (s,
        if m_anyret s then
@@ -149,6 +152,7 @@ Definition emit (s : state) (l : label) : list aev :=
           end
       | LRun => match run s with RWaitClosed => [ARunRet] | _ => [] end
       | LEnvCancel => [ACancel]
+      | LSubEnd h => [ASubEnd h]
       | LHc h => match hc s h with HCSubClose => [ASubClose h] | _ => [] end
       | LLoop h => match lp s h with LPubClose => [APubClose h] | _ => [] end
       | _ => []
